@@ -147,6 +147,10 @@ def make_constraint(cspec):
 
     def cons(X):
         c = violation(cspec, X)
+        if ret == "nanviol":
+            # undefined (NaN) instead of a positive value where the constraint is violated, e.g. y - sqrt(x) for x < 0:
+            # such a point does not satisfy the constraint
+            return np.where(c > 0, np.nan, c)
         if ret == "barrier":
             return np.where(c > 0, np.inf, 0.0)  # barrier style: 0 where feasible, +inf where violated
         if ret.startswith("bool"):
